@@ -459,9 +459,53 @@ def near_tangent_cases(rng, n):
     return cs
 
 
+def egcd_py(a, b):
+    if b == 0:
+        return (1, 0) if a >= 0 else (-1, 0)
+    x, y = egcd_py(b, a % b)
+    return y, x - (a // b) * y
+
+
+def near_parallel_cases(rng, n):
+    """line pairs that cross under a small angle: 1e-8 << |sin| << 1e-3.  They are NOT parallel within the library's
+    1e-9 tolerance, so intersect_ll has to return a point (the specification demands the kind, not the accuracy
+    of the ill-conditioned point)."""
+    cs = []
+    for i in range(n):
+        if i % 2 == 0:
+            # lattice: direction vectors with cross product 1 or 2
+            while True:
+                p, q = rng.range(-400, 400), rng.range(-400, 400)
+                if math.gcd(p, q) == 1 and abs(p) + abs(q) > 60:
+                    break
+            x, y = egcd_py(p, q)             # p*x + q*y = 1   ->  cross((p,q),(-y,x)) = p*x + q*y = 1
+            t = rng.range(1, 3) * rng.choice([1, -1])
+            r, s_ = -y + t * p, x + t * q
+            j = rng.choice([1, 1, 2])       # cross = j
+            r, s_ = (r, s_) if j == 1 else (2 * r - p, 2 * s_ - q)
+            ux, uy, vx, vy = rng.range(-20, 20), rng.range(-20, 20), rng.range(-20, 20), rng.range(-20, 20)
+            l1 = ["B", ux, uy, ux + p, uy + q]
+            l2 = ["B", vx, vy, vx + r, vy + s_]
+            if rng.chance(1, 2):
+                l1, l2 = l2, l1
+            cs.append({"op": "ll", "tag": "lat-nearpar", "l1": l1, "l2": l2})
+        else:
+            m = rng.choice([1.0, 10.0, 100.0, 1000.0])
+            l1 = real_line(rng, m)
+            dx, dy = l1[3] - l1[1], l1[4] - l1[2]
+            sn = 10.0 ** (-7.3 + 4.0 * u01(rng)) * rng.choice([1, -1])      # 5e-8 .. 5e-4
+            cs_ = math.sqrt(1 - sn * sn)
+            ex, ey = dx * cs_ - dy * sn, dx * sn + dy * cs_
+            k = 0.3 + u01(rng)
+            vx, vy = (2 * u01(rng) - 1) * m, (2 * u01(rng) - 1) * m
+            cs.append({"op": "ll", "tag": "real-nearpar", "l1": l1, "l2": ["B", vx, vy, vx + k * ex, vy + k * ey]})
+    return cs
+
+
 def generate(rng, tier):
     quick = tier == "quick"
     cases = []
+    cases += near_parallel_cases(rng.fork("nearpar"), 120 if quick else 1500)
     cases += lattice_cases(rng.fork("lat"), 1500 if quick else 12000)
     cases += tangency_cases(rng.fork("tan"), 1000 if quick else 8000)
     cases += real_cases(rng.fork("real"), 2500 if quick else 20000)
